@@ -397,4 +397,32 @@ example : simulateVariants (fun (m d : Nat) => 10 * m + d) [1, 2, 3] [7, 8] = [1
 
 end Variants
 
+/-! ## 7. One swap call with several pairs is the sequence of the single-pair swaps -/
+
+section Swaps
+
+theorem swapPairs_nil (p : Plan) (exoK endoK : Kind) (d : DateArg) (st : Bool) :
+    p.swapPairs exoK endoK d [] st = .ok p := rfl
+
+/-- **the intended plan of one call with a list of pairs is the union of the pairs**: the first pair is swapped (its variable exogenized
+AND its shock endogenized), then the remaining pairs are swapped on the result -/
+theorem swapPairs_cons (p : Plan) (exoK endoK : Kind) (d : DateArg) (pr : Nat × Nat) (rest : List (Nat × Nat)) (st : Bool) :
+    p.swapPairs exoK endoK d (pr :: rest) st
+      = (p.swapPairs exoK endoK d [pr] st).bind (fun q => q.swapPairs exoK endoK d rest st) := by
+  simp only [Plan.swapPairs, List.foldlM_cons, List.foldlM_nil, bind_assoc, Except.bind]
+  cases p.writeDates exoK d [pr.1] st with
+  | error e => rfl
+  | ok p1 =>
+    simp only [bind, Except.bind]
+    cases p1.writeDates endoK d [pr.2] st with
+    | error e => rfl
+    | ok p2 => rfl
+
+/-- two pairs in one call: both shocks are endogenized, not only the first -/
+example : ((Plan.empty 3 2 2).swapPairs .exoAnt .endoAnt (.periods [1]) [(0, 0), (1, 1)] true).toOption.map
+      (fun p => (p.boolArray .exoAnt [0, 1, 2], p.boolArray .endoAnt [0, 1, 2]))
+    = some ([[false, true, false], [false, true, false]], [[false, true, false], [false, true, false]]) := by decide
+
+end Swaps
+
 end IrisVerif.C07Frames
